@@ -103,7 +103,9 @@ class Runtime:
                        'values': Native('Object.values', obj_values)})
 
         def string_fn(it_, this, args):
-            from .interp import tostr
+            from .interp import tostr, StrCat
+            if isinstance(args[0], (str, StrCat)):
+                return args[0]
             return tostr(it_.term(args[0]))
 
         def wxs_loader(it_, this, args):
